@@ -8,7 +8,7 @@ from scipy import ndimage
 from scipy.spatial import Delaunay
 import shapely
 import shapely.geometry as sg
-from shapely.ops import unary_union, polygonize
+from shapely.ops import unary_union, polygonize, linemerge
 
 from pero_ocr.core.layout import TextLine
 
@@ -341,6 +341,8 @@ def mask_textline_by_region(baseline, textline, region):
     if isinstance(textline_is, sg.MultiPolygon):  # this can happen generally with some combinations of layout and line detection
         areas = np.array([poly.area for poly in textline_is.geoms])
         textline_is = textline_is.geoms[np.argmax(areas)]
+    if isinstance(baseline_is, sg.MultiLineString):  # pieces that meet where the baseline only touches the region border are one piece
+        baseline_is = linemerge(baseline_is)
     if isinstance(baseline_is, sg.MultiLineString):  # this can happen generally with some combinations of layout and line detection
         lengths = np.array([line.length for line in baseline_is.geoms])
         baseline_is = baseline_is.geoms[np.argmax(lengths)]
